@@ -86,6 +86,7 @@ def step' (st : St) (j : Json) : St × List String :=
     let (w1, _) := step cfg st.d st.w .pollA
     let (s, l) := apply { st with w := w1 } (.pollB (permOf (jStrs j "order"))); (s, [l])
   | "validate" => let (s, l) := apply st .validate; (s, [l])
+  | "verifier" => let (s, l) := apply st (.clientVerifier (jBool j "up")); (s, [l])
   | "observe" => let (s, l) := observe st "ok"; (s, [l])
   | "sleep" => let (s, l) := observe st "ok"; (s, [l])
   | "get" =>
